@@ -208,6 +208,19 @@ let handle (fields : string list) : string =
     Printf.sprintf "%d %s" (List.length (yielded r)) (match ending r with LStop -> "stop" | LNeed -> "need" | LErr -> "err" | LYield _ -> "?")
   | [ "complaw"; rel ] -> String.concat "," (List.map string_of_q (comp_law (List.map q_of_string (split_nonempty ',' rel))))
   | [ "share"; p; m ] -> String.concat "," (List.map string_of_q (share (List.map q_of_string (split_nonempty ',' p)) (List.map q_of_string (split_nonempty ',' m))))
+  | [ "ffsel"; rules; ms; natoms ] ->
+    (* rules: id:len:type;...   ms: ruleid:atom,atom;...   *)
+    let rl = List.map (fun x -> match String.split_on_char ':' x with
+        | [i; l; t] -> { r_id = nat_of_int (int_of_string i); r_len = nat_of_int (int_of_string l); r_type = nat_of_int (int_of_string t) }
+        | _ -> failwith "rule") (split_nonempty ';' rules) in
+    let tbl = Hashtbl.create 64 in
+    List.iter (fun x -> match String.split_on_char ':' x with
+        | [i; atoms] -> Hashtbl.replace tbl (int_of_string i) (List.map (fun a -> nat_of_int (int_of_string a)) (split_nonempty ',' atoms))
+        | _ -> failwith "matches") (split_nonempty ';' ms);
+    let matches r = try Hashtbl.find tbl (int_of_nat r.r_id) with Not_found -> [] in
+    (match assign rl matches (nat_of_int (int_of_string natoms)) with
+     | FOk l -> "OK " ^ String.concat "," (List.map (fun r -> string_of_int (int_of_nat r.r_id)) l)
+     | FPartial d -> "PARTIAL " ^ String.concat "," (List.map (function None -> "-" | Some r -> string_of_int (int_of_nat r.r_id)) d))
   | [ "float"; s ] ->
     (match py_float (explode (unhex s)) with None -> "ERR" | Some x -> string_of_num x ^ " " ^ implode (fprint x))
   | [ "repr"; s ] -> py_repr (float_of_string s)
